@@ -149,6 +149,7 @@ def check(case, rec):
         if vals.shape[1:] != (ndofs,):
             raise Violation('shape', f'evaluated basis has shape {vals.shape}, len(basis)={ndofs}', where='shape')
         support = [set() for _ in range(ndofs)]
+        cond = [1.]     # size of the monomial coefficients: the rounding error of evaluating the functions (and of their sum) scales with it
         for i in range(nel):
             dofs = numpy.asarray(basis.get_dofs(i))
             coeffs = numpy.asarray(basis.get_coefficients(i))
@@ -159,6 +160,7 @@ def check(case, rec):
             if (len(set(dofs.tolist())) != len(dofs) and not selfneighbour) or (len(dofs) and (dofs.min() < 0 or dofs.max() >= ndofs)):
                 raise Violation('dofs', f'element {i}: dofs {dofs.tolist()} (ndofs {ndofs})', where='dofs:' + btype)
             for d in dofs: support[int(d)].add(i)
+            if len(dofs): cond[0] = max(cond[0], float(abs(coeffs).reshape(len(dofs), -1).sum(1).max()) * len(dofs))
             k = smp.getindex(i)
             xi = numpy.asarray(smp.points[i].coords)
             local = nutils_poly.eval_outer(numpy.ascontiguousarray(coeffs, dtype=float), numpy.ascontiguousarray(xi, dtype=float)) if len(dofs) else numpy.zeros((len(xi), 0))
@@ -177,7 +179,7 @@ def check(case, rec):
         pou = base in ('std', 'bernstein', 'lagrange', 'spline', 'discont') and not btype.startswith('h-') and not info.get('masked') and not info.get('removedofs')
         if pou and ndofs:
             s = vals.sum(1)
-            if abs(s - 1).max() > 1e-11:
+            if abs(s - 1).max() > 1e-11 + 1e-15 * cond[0]:
                 raise Violation('partition-of-unity', f'{btype} {kwargs} on {case["kind"]}: basis sums to {s.min()}..{s.max()}', where='pou:' + btype)
             rec.label('pou-checked')
         # continuity
